@@ -160,8 +160,6 @@ def rule_b(ctx: Ctx) -> None:
                     ok, why = True, "truth test"
                 elif isinstance(q, ast.comprehension) and cur in q.ifs:
                     ok, why = True, "truth test"
-            elif isinstance(p, ast.Assign) and where.endswith("maybe_comment"):
-                ok, why = True, "inside maybe_comment"
             if f is not None and f.key == f"{GEN}:Generator.maybe_comment":
                 ok, why = True, "inside maybe_comment"
             if ok:
